@@ -62,6 +62,39 @@ def enumerate_damage(base, quick, rng):
     return out
 
 
+SIZE_BYTES = ["X", 0, 0xff, "-", " ", ";"]
+
+
+def sizebyte_runs(quick, seed):
+    """Single-byte corruption of chunk-size lines: every byte position (digits, extension, CR, LF) of the chosen
+    lines -- always the first, a middle one and the terminating zero-size chunk line -- replaced in turn by each of
+    X, NUL, 0xff, '-', ' ', ';', consumed through the APIs (both chunk parsers)."""
+    rng = random.Random(seed * 7331 + 5)
+    runs = []
+    codings = ["identity", "gzip"] if quick else ["identity", "gzip", "zstd-mf", "deflate", "gzip,zstd"]
+    for coding in codings:
+        for variant in range(1 if quick else 3):
+            base = {"size": [40, 13, 120][variant], "pseed": seed * 10 + variant + 3, "coding": coding, "framing": "chunked",
+                    "chunks": ["rand", "sevens", "big"][variant], "ext": variant != 1, "decode": True,
+                    "seg": [None, 7, 100][variant]}
+            b0 = bg.build(base)
+            lines = [x for x in b0["layout"] if x[0] in ("size", "last")]
+            nl = len(lines)
+            chosen = sorted({0, nl // 2, nl - 1} | (set() if quick else set(rng.sample(range(nl), min(nl, 4)))))
+            for li in chosen:
+                for pos in range(lines[li][2] - lines[li][1]):
+                    for byte in SIZE_BYTES:
+                        rep = byte if isinstance(byte, int) else ord(byte)
+                        if b0["wire"][lines[li][1] + pos] == rep:
+                            continue
+                        case = dict(base, damage={"kind": "sizebyte", "line": li, "pos": pos, "byte": byte})
+                        for api in rng.sample(APIS, 2 if quick else 4):
+                            r = api_run(case, api, None)
+                            if r is not None:
+                                runs.append(r)
+    return runs
+
+
 def enumerated_runs(quick, seed):
     rng = random.Random(seed * 104729 + 13)
     codings = ["identity", "gzip", "zstd", "zstd-mf", "gzip,zstd", "deflate"] if quick else bg.CODINGS
@@ -88,6 +121,7 @@ def enumerated_runs(quick, seed):
             for api in (("read", 0), ("readn", 7), ("read1", 0), ("stream", 16)):
                 runs.append(api_run(dict(base, damage={"kind": "cut", "at": at}), api))
     runs += bc.large_runs(True, quick, seed)               # the LARGE size class (> 1 MiB of Content-Length)
+    runs += sizebyte_runs(quick, seed)                     # every byte of chunk-size lines x six replacement bytes
     rng.shuffle(runs)
     return runs
 
@@ -116,6 +150,8 @@ def run(rep):
                       bc.DEFECT_CLAUSES[d]))
     plans.append(("deviation PiecewiseReadHidesCut refuted", dict(base, sc="ScLarge", maxops=3, kd="JustPW"),
                   bc.DEFECT_CLAUSES["JustPW"]))
+    plans.append(("deviation SizeLinePrefixAccepted refuted", dict(base, sc="ScC13Dev", maxops=3, kd="JustSLP"),
+                  bc.DEFECT_CLAUSES["JustSLP"]))
     plans.append(("liveness: an owed error arrives", dict(spec="LiveSpec", sc="ScC13Tiny", dk="AllDamage", amts="A2", amts1="A2",
                                                           into="A2", gen="A2", maxops=30, after=0, body=bc.LIVE_BODY), None))
     J = bc.JOBS
